@@ -18,7 +18,7 @@ from vlib import core
 from vlib import c13_corrupt as C
 
 TARGETS = ["Props/C12.vo"]
-TABLE_TARGETS = ["Props/C12_Table.vo"]
+TABLE_TARGETS = ["Props/C12_Table.vo", "Props/C12_Table2.vo"]
 TABLE_FORMATS = ["xyz", "rawxyz", "pdffit", "discus"]       # formats with a Coq writer model (C04) and a parser model (C13)
 
 KINDS = ["ValueError", "IndexError", "KeyError", "TypeError", "StopIteration", "ZeroDivisionError", "OverflowError",
@@ -199,7 +199,7 @@ def build(ctx):
         ok04 = ctx.regen("c04_fmt", c04_fmt.generate)
         ctx.table_ok = False
         if ok and ok13 and ok04:
-            tok, _ = ctx.coq(TABLE_TARGETS, theorems_in={"Props/C12_Table"})
+            tok, _ = ctx.coq(TABLE_TARGETS, theorems_in={"Props/C12_Table", "Props/C12_Table2"})
             ctx.table_ok = tok
         return ok
 
@@ -213,6 +213,8 @@ def side_conditions(wf, text):
         return not (title and title[0] == "cell") and all(r[0] != "cell" for r in rows)
     if wf == "rawxyz":
         return all(ln.split()[0] != "cell" for ln in lines if ln.split())
+    if wf == "xcfg":
+        return all(ln.split() != ["cell"] for ln in lines)
     if wf == "discus":
         i = lines.index("atoms") if "atoms" in lines else len(lines)
         for ln in lines[i + 1:]:
@@ -234,8 +236,9 @@ def table_correspondence(ctx, results, text_of, wfmt_of):
     """conc_g (C13 control-flow model + C04 codecs) evaluated in Coq on the ACTUAL texts of the four writers, against the
     real parsers (every cell of the 4x4 block, diagonal included), plus the title witness of the refuted cell."""
     from diffpy.structure.parsers import getParser
-    cases = [(tid, text_of[tid], wfmt_of[tid]) for tid in sorted(results) if wfmt_of[tid] in TABLE_FORMATS]
-    cases = [c for c in cases if c[1].isascii()][:24 if ctx.tier == "quick" else 96]
+    # texts of all 7 writers (columns), read by the 4 modelled parsers (rows)
+    cases = [(tid, text_of[tid], wfmt_of[tid]) for tid in sorted(results) if wfmt_of[tid]]
+    cases = [c for c in cases if c[1].isascii()][:42 if ctx.tier == "quick" else 140]
     cases.append((("witness", 0, "xyz"), WITNESS_XYZ, "xyz"))
     if not getattr(ctx, "table_ok", False):
         ctx.obligation("correspondence:table-models-vs-live-parsers", False, "Props/C12_Table not built")
@@ -404,8 +407,8 @@ def run(ctx):
     wfmt_of = {t[0]: t[2] for t in tasks}
 
     table_correspondence(ctx, results, text_of, wfmt_of)
-    n_side = sum(1 for tid in results if wfmt_of[tid] in TABLE_FORMATS)
-    n_side_ok = sum(1 for tid in results if wfmt_of[tid] in TABLE_FORMATS and side_conditions(wfmt_of[tid], text_of[tid]))
+    n_side = sum(1 for tid in results if wfmt_of[tid])
+    n_side_ok = sum(1 for tid in results if wfmt_of[tid] and side_conditions(wfmt_of[tid], text_of[tid]))
     ctx.coverage["table_side_conditions"] = "%d of %d generated writer texts satisfy the side conditions of the cell theorems" % (n_side_ok, n_side)
 
     # ---- rejection table (hypothesis of the written-text theorem) ------------------------------------
